@@ -347,9 +347,17 @@ def _loop_common(P, st, spec, cond_fn, body_prefix=None, label=None):
     if isinstance(st, ast.For):
         assigned |= _target_names(st.target)
     mutated = set(spec.get("mutates", ()))
+    default_hint = spec.get("default_hint")      # (P, symbol name, current value) -> fresh value | None: hints by the role of a value, robust to renamed locals
     for n in sorted(assigned | mutated):
         if n in fr.locals:
-            fr.locals[n] = fresh_like(P, fr.locals[n], f"{n}@L{spec.get('name', st.lineno)}", hints.get(n))
+            h_ = hints.get(n)
+            if h_ is None and default_hint is not None:
+                cur_ = fr.locals[n]
+                dv = default_hint(P, f"{n}@L{spec.get('name', st.lineno)}", cur_)
+                if dv is not None:
+                    fr.locals[n] = dv
+                    continue
+            fr.locals[n] = fresh_like(P, fr.locals[n], f"{n}@L{spec.get('name', st.lineno)}", h_)
         elif n in hints and spec.get("bind_unbound", {}).get(n):
             fr.locals[n] = hints[n](P, f"{n}@L{spec.get('name', st.lineno)}")
     # heap fields written by the loop body (declared by the contract) are havocked too
